@@ -39,6 +39,10 @@ def generate(ctx):
         elif r < 0.8: b = G.mutate(G.shuffled(copy.deepcopy(a), rng), rng); tags = ['permuted+mutated']
         else: b = G.rand_doc(rng, rng.choice([0, 1, 2, 3]), root=rng.random() < 0.7); tags = ['independent']
         cases.append(case(cs, a, b, tags))
+    # number pairs on both sides of the tolerance test, bare and inside containers
+    for x, y in G.NUM_PAIRS:
+        for a, b in ((x, y), (y, x), ([1, x], [1, y]), (G.Obj([('n', x), ('k', 'v')]), G.Obj([('k', 'v'), ('n', y)]))):
+            cases.append(case(1, copy.deepcopy(a), copy.deepcopy(b), ['number-pairs']))
     for _ in range(150 if quick else 1000):
         a, b = G.rand_scalar(rng), G.rand_scalar(rng)
         cases.append(case(1, a, b, ['scalars']))
